@@ -194,6 +194,22 @@ pub fn check(id: &str, tier: Tier) -> i32 {
       bounds.push(json!({"kind": "alloc/release programs", "threads": nt, "preemption_bound": bound, "freelists": format!("{:?}", fls), "layouts(unify,cap,min_seg)": layouts, "shapes": shapes, "menu": format!("{:?}", menu), "harnesses": count}));
     }
   }
+  if id != "C13" {
+    // regression harnesses: the programs on which the thorough tier found the stale-traversal defect
+    // (S13, 3 threads / 3 preemptions), kept in every tier at the bound that exposes them
+    use TOp::*;
+    let reg: Vec<(Fl, u8, bool, u32, Vec<Vec<TOp>>)> = vec![
+      (Fl::Pessimistic, 11, true, 256, vec![vec![B(16)], vec![B(16), DropOwn], vec![B(16), DropOwn]]),
+      (Fl::Optimistic, 3, true, 256, vec![vec![B(16), DropOwn], vec![Discard], vec![Discard]]),
+      (Fl::Pessimistic, 3, true, 256, vec![vec![B(16), DropOwn], vec![Discard], vec![Discard]]),
+      (Fl::Pessimistic, 19, false, 225, vec![vec![B(24)], vec![B(16), DropOwn], vec![Discard]]),
+      (Fl::Optimistic, 11, true, 256, vec![vec![B(16)], vec![B(16), DropOwn], vec![B(16), DropOwn]]),
+    ];
+    for (fl, shape, unify, cap, progs) in reg {
+      items.push((Harness { fl, unify, min_seg: 8, cap, shape, progs, own_arenas: false, leave: 0, odd: 0 }, 3));
+    }
+    bounds.push(json!({"kind": "regression harnesses (S13)", "threads": 3, "preemption_bound": 3, "harnesses": 5}));
+  }
   let execs = AtomicU64::new(0);
   let events = AtomicU64::new(0);
   let capped = AtomicU64::new(0);
